@@ -52,6 +52,7 @@ def correspondence(ctx, corr):
         common.run_family(ctx, corr, 'c03_table', {'raise_mode': True})
     corr.exhaustive = True
     common.run_family(ctx, corr, 'c03_noraise', {'count': 4 if ctx.quick else 40})
+    module_level(ctx, corr)
     from xdoctest import checker, directive
     rng = ctx.sub_rng('units')
     wants = _want_texts(rng, 1500 if ctx.quick else 20000)
@@ -103,6 +104,69 @@ def correspondence(ctx, corr):
             corr.disagree('check_exception', {'exc_got': g, 'want': w, 'flags': fl}, m, r)
 
 
+MODULE_TEMPLATE = '''
+def first():
+    """
+    Example:
+        >>> # xdoctest: %s
+        >>> print(1)
+        1
+    """
+
+
+def second():
+    """
+    Example:
+        >>> raise ValueError('the real message')
+        Traceback (most recent call last):
+            ...
+        ValueError: %s
+    """
+'''
+
+
+def module_level(ctx, corr):
+    """two doctests of one module run by the native runner with user default options: a flag switched on by a block
+    directive of the FIRST doctest (IGNORE_EXCEPTION_DETAIL, or the leniencies) must not decide how the expected
+    exception of the SECOND is matched"""
+    import contextlib
+    import io
+    import os
+    import shutil
+    import tempfile
+    import warnings
+    from xdoctest import runner
+    d = tempfile.mkdtemp(prefix='xdocverif-')
+    try:
+        i = 0
+        for first_directive in ('+IGNORE_EXCEPTION_DETAIL', '+SKIP', '-ELLIPSIS'):
+            for want_msg, must_fail in (('a completely different message', True), ('the real message', False)):
+                for defaults in ({}, {'IGNORE_WHITESPACE': False}, {'ELLIPSIS': True, 'NORMALIZE_REPR': True}):
+                    i += 1
+                    src = MODULE_TEMPLATE % (first_directive, want_msg)
+                    path = os.path.join(d, 'c03mod_%d_%d.py' % (os.getpid(), i))
+                    with open(path, 'w') as f:
+                        f.write(src)
+                    buf = io.StringIO()
+                    inp = {'module_source': src, 'default_runtime_state': defaults}
+                    try:
+                        with contextlib.redirect_stdout(buf), warnings.catch_warnings():
+                            warnings.simplefilter('ignore')
+                            rs = runner.doctest_module(path, command='all', verbose=0, argv=[], analysis='static',
+                                                       config={'default_runtime_state': dict(defaults)})
+                        failed = sorted(e.callname for e in rs.get('failed', []))
+                    except BaseException as e:  # noqa
+                        failed = 'raised %r' % (e,)
+                    corr.count('module-level')
+                    corr.nontriv(('mod', first_directive, want_msg, repr(sorted(defaults.items()))))
+                    exp = ['second'] if must_fail else []
+                    if failed != exp:
+                        corr.expect_fail('module-level', inp, {'failed': exp}, {'failed': failed},
+                                         'the second doctest raises ValueError(the real message) against the want %r' % want_msg)
+    finally:
+        shutil.rmtree(d, ignore_errors=True)
+
+
 def search(ctx, corr, broken):
     return common.search_families(ctx, corr, [('c03_table', {}), ('c03_noraise', {'count': 10})])
 
@@ -116,4 +180,12 @@ def replay_finding(ctx, finding):
 
 
 def replay(ctx, failing):
+    if 'module_source' in failing.get('input', {}):
+        from ..core import Corr
+        c2 = Corr()
+        module_level(ctx, c2)
+        bad = [e for e in c2.expect_failures if e['input'] == failing['input']]
+        print(failing['input']['module_source'])
+        print('default_runtime_state=%r -> %s' % (failing['input']['default_runtime_state'], bad[0]['impl'] if bad else 'as expected'))
+        return bool(bad)
     return common.replay_scenario(failing)
